@@ -560,6 +560,9 @@ func nonTrivial(cs *caseSpec) string {
 			return "nt_divergence_in_last_chunk"
 		}
 	case clsOK:
+		if cs.n == 0 {
+			return "" // nothing is delivered at all
+		}
 		emptyFinal := false
 		if src.Kind == bufzoo.CASReader {
 			emptyFinal = !src.EOFWithData // (n, nil) then (0, io.EOF)
